@@ -45,7 +45,7 @@ theorem preInit_actor (behs : List BehDef) (a : Aid) (ha : a < nA (preInit behs)
   exact ⟨rfl, rfl⟩
 
 theorem preInit_TI (behs : List BehDef) (h : ∀ b ∈ behs, BehOK b) : TI (preInit behs) := by
-  refine ⟨?_, ?_, ?_, ?_, ?_, ?_, ?_, ?_, ?_, ?_, preInit_behs_ok behs h⟩
+  refine ⟨?_, ?_, ?_, ?_, ?_, ?_, ?_, ?_, ?_, ?_, ?_, ?_, ?_, preInit_behs_ok behs h⟩
   · intro c hc p hp; obtain ⟨rfl, hx⟩ := preInit_actor behs c hc; rw [hx] at hp; cases hp
   · intro a ha who s hm; obtain ⟨rfl, hx⟩ := preInit_actor behs a ha; rw [hx] at hm; simp at hm
   · intro a ha hr; obtain ⟨rfl, hx⟩ := preInit_actor behs a ha; rw [hx] at hr; cases hr
@@ -53,6 +53,9 @@ theorem preInit_TI (behs : List BehDef) (h : ∀ b ∈ behs, BehOK b) : TI (preI
   · intro a ha m x hm; obtain ⟨rfl, hx⟩ := preInit_actor behs a ha; rw [hx] at hm; simp at hm
   · intro a ha m x hm; obtain ⟨rfl, hx⟩ := preInit_actor behs a ha; rw [hx] at hm; simp at hm
   · intro a ha; obtain ⟨rfl, hx⟩ := preInit_actor behs a ha; rw [hx]; trivial
+  · intro a ha hs; obtain ⟨rfl, hx⟩ := preInit_actor behs a ha; rw [hx] at hs; cases hs
+  · intro a ha hs; obtain ⟨rfl, hx⟩ := preInit_actor behs a ha; rw [hx] at hs; cases hs
+  · intro a ha; obtain ⟨rfl, hx⟩ := preInit_actor behs a ha; rw [hx]; intro k i s hk; simp at hk
   · intro a ha _; exact (preInit_actor behs a ha).1
   · intro hc; cases hc
   · intro p hp; simp [preInit] at hp
